@@ -23,7 +23,12 @@ QUICK_N = 400
 THOROUGH_N = 15000
 QUICK_BUDGET_S = 75
 THOROUGH_BUDGET_S = 900
-RULE = ("generated .ojn byte strings: random header (all 23 fields, NULs and non-ASCII bytes in the texts), three "
+RULE = ("about 70% of the file cases go through O2JMapSet.read(bytes), the rest through O2JMapSet.read_file on a temporary .ojn (str and "
+        "pathlib.Path); claim seq reads 2-3 files 2-5 times in one process through any entry point (same song id, same packages "
+        "under another header tempo, a head left open followed by a file starting with a tail on that column, files repeated), "
+        "takes the results off the returned objects only after all reads (difficulties interleaved) and lets one O2JMapSetMeta "
+        "instance read every header in turn; each read is judged against the model/specification of its own bytes. "
+        "Generated .ojn byte strings: random header (all 23 fields, NULs and non-ASCII bytes in the texts), three "
         "difficulties of 0-40 (thorough: 0-200) packages, slot counts 1-192, note channels 2-8 with hits and long notes "
         "spanning packages and measures, 0-30 tempo events anywhere (position 0, inside one measure, coinciding with notes, "
         "after the last note), autoplay/unknown channels, trailing bytes, shuffled package order, and a small share of "
@@ -31,6 +36,7 @@ RULE = ("generated .ojn byte strings: random header (all 23 fields, NULs and non
         "claims f32/int check the byte decoders on random bit patterns; non-trivial = a difficulty with at least two "
         "tempo events and a note after the second, or a long note crossing a package boundary")
 ASSUMPTIONS = [
+    "claim seq is evaluated in a fresh Python process per case (its own sequence is the only history); a failing claim read is re-evaluated in a fresh process and tagged history-dependent when it only fails after other reads",
     "struct.unpack('<i'/'<h'/'<f') is modelled (two's complement, IEEE-754 single -> exact rational) and cross-checked on random bit patterns",
     "float measure positions fl(fl(i/n)+m) order exactly like the rationals m+i/n for m <= 100000, n <= 2000 (generator domain)",
     "times compared within 2^-40 relative + a forward error bound (k+2)*2^-49*(Mmax+1)*240000/min|bpm| of the double computation",
@@ -158,14 +164,14 @@ def note_ev(rng, t, enabled=None):
     return [en, rng.randrange(256), t]
 
 
-def gen_level(rng, tier, well_formed=True):
+def gen_level(rng, tier, well_formed=True, small=False):
     """packages of one difficulty. Columns are processed measure by measure so that long notes are well nested;
     the package order is then optionally shuffled in ways that keep every column's own order."""
     big = tier == "thorough"
     r = rng.random()
     if r < 0.08:
         return []
-    n_meas = rng.choice([1, 1, 2, 3, 4, 6, 8] + ([12, 20, 28] if big else [10]))
+    n_meas = rng.choice([1, 1, 2, 3] if small else [1, 1, 2, 3, 4, 6, 8] + ([12, 20, 28] if big else [10]))
     start = rng.choice([0, 0, 0, 0, 1, 3, 50, 999])
     dens = rng.choice([0.15, 0.3, 0.5, 0.8])
     cols = rng.sample(range(7), rng.choice([1, 2, 4, 7, 7]))
@@ -266,9 +272,51 @@ def gen(rng, tier, i):
                                                  0x00800000, 0x7F7FFFFF, 0x42F00000, rng.randrange(2 ** 32), rng.randrange(2 ** 32)]))
     if r < 0.06:
         return dict(claim="int", bytes=[rng.choice([0, 255, 128, 127, rng.randrange(256)]) for _ in range(4)])
+    if r < 0.18:
+        return gen_seq(rng, tier)
+    case = gen_file(rng, tier)
+    case["via"] = rng.choice(["read", "read", "read", "read_file_str", "read_file_path"])
+    return case
+
+
+def gen_seq(rng, tier):
+    """2-3 files read 2-5 times in one process: shared song ids, the same chart under another header tempo, a file with
+    a head left open followed by a file whose first long-note event on that column is a tail, files repeated"""
+    k = rng.choice([2, 2, 3])
+    files = [gen_file(rng, "quick", small=True) for _ in range(k)]
+    q = rng.random()
+    if q < 0.35:        # same song id (and signature) everywhere, different everything else
+        for f in files[1:]:
+            f["hdr"]["song_id"] = files[0]["hdr"]["song_id"]
+            f["hdr"]["signature"] = files[0]["hdr"]["signature"]
+    elif q < 0.65:      # the same packages under a different header tempo / title
+        files[1]["levels"] = [[dict(p) for p in l] for l in files[0]["levels"]]
+        files[1]["tail"] = list(files[0]["tail"])
+        if "opts" in files[0]:
+            files[1]["opts"] = dict(files[0]["opts"])
+        else:
+            files[1].pop("opts", None)
+        files[1]["hdr"]["bpm"] = gen_bpm(rng, wide=True)
+    elif q < 0.85:      # a head left open on a column, then a file that starts with a tail on it
+        c = rng.randrange(2, 9)
+        m0 = rng.randrange(0, 4)
+        files[0]["levels"][rng.randrange(3)].append(dict(m=m0 + 50, ch=c, ev=[note_ev(rng, 2)]))
+        files[1]["levels"][0].insert(0, dict(m=m0, ch=c, ev=[[0, 0, 0], note_ev(rng, 3)]))
+    n = rng.choice([2, 2, 3, 4, 5])
+    steps = []
+    for i in range(n):
+        f = i if i < k and rng.random() < 0.7 else rng.randrange(k)
+        st = dict(f=f, via=rng.choice(VIAS))
+        if rng.random() < 0.5:
+            st["levels"] = rng.sample(range(3), 3)
+        steps.append(st)
+    return dict(claim="seq", files=files, steps=steps)
+
+
+def gen_file(rng, tier, small=False):
     hdr = gen_header(rng)
     ill = rng.random() < 0.07
-    levels = [gen_level(rng, tier, well_formed=not (ill and rng.random() < 0.3)) for _ in range(3)]
+    levels = [gen_level(rng, tier, well_formed=not (ill and rng.random() < 0.3), small=small) for _ in range(3)]
     case = dict(claim="read", hdr=hdr, levels=levels, tail=[rng.randrange(256) for _ in range(rng.choice([0, 0, 1, 7, 40]))])
     if ill:
         k = rng.randrange(8)
@@ -352,6 +400,25 @@ def corpus():
     # every text field filled to its last byte (a field boundary moved by one byte shows here)
     c.append(dict(claim="read", hdr=_hdr(120.0, signature="OJNx", old_genre="0123456789abcdefghij", title="T" * 63 + "z", artist="a" * 31 + "y",
                                          creator="c" * 31 + "x", ojm_file="o" * 31 + "w"), levels=[[], [], []], tail=[]))
+    # the file API, and several reads in one process
+    c.append(dict(c[0], via="read_file_str"))
+    c.append(dict(c[1], via="read_file_path"))
+    c.append(dict(c[10], via="read_file_str"))        # truncated file through the file API
+    c.append(dict(claim="read", via="read_file_path", hdr=_hdr(120.0), tail=[],    # difficulty counts [0, 2, 0] through the file API
+                  levels=[[], [dict(m=0, ch=2, ev=[H, H]), dict(m=1, ch=1, ev=[60.0])], []]))
+    two = dict(claim="read", hdr=_hdr(120.0), levels=[[dict(m=0, ch=2, ev=[H, Z, H, Z]), dict(m=1, ch=1, ev=[0.0, 60.0]),
+                                                       dict(m=2, ch=3, ev=[HD, Z]), dict(m=3, ch=3, ev=[Z, TL])], [], []], tail=[])
+    # same song id and same packages, another header tempo and title (a memo per song / per measure shows here)
+    other = dict(two, hdr=_hdr(90.0, title="another", level=[9, 8, 7, 6]))
+    c.append(dict(claim="seq", files=[two, other], steps=[dict(f=0, via="read"), dict(f=1, via="read"), dict(f=0, via="read_file_str"),
+                                                          dict(f=1, via="read_file_path", levels=[2, 0, 1])]))
+    # a head left open by one file must not close a tail of the next file (hold buffer outliving a call)
+    dang = dict(claim="read", hdr=_hdr(120.0), levels=[[dict(m=5, ch=4, ev=[HD])], [], []], tail=[])
+    tailonly = dict(claim="read", hdr=_hdr(120.0), levels=[[dict(m=1, ch=4, ev=[Z, TL])], [], []], tail=[])
+    c.append(dict(claim="seq", files=[dang, tailonly, two], steps=[dict(f=0), dict(f=1), dict(f=2), dict(f=0, via="read_file_str"),
+                                                                  dict(f=1, via="read_file_str")]))
+    # the same file twice, then an ill-formed one, then the first again
+    c.append(dict(claim="seq", files=[two, dict(two, opts=dict(cut=310))], steps=[dict(f=0), dict(f=0), dict(f=1), dict(f=0, levels=[1, 2, 0])]))
     c.append(dict(claim="f32", bits=0x42F00000))
     c.append(dict(claim="f32", bits=0x7FC00000))
     c.append(dict(claim="f32", bits=0x00000001))
@@ -366,6 +433,25 @@ def valid(case):
             return isinstance(case["bits"], int) and 0 <= case["bits"] < 2 ** 32
         if cl == "int":
             return len(case["bytes"]) == 4 and all(isinstance(b, int) and 0 <= b < 256 for b in case["bytes"])
+        if cl == "seq":
+            files, steps = case["files"], case["steps"]
+            if not files or not steps or len(steps) > 8 or not all(valid_file(f) for f in files):
+                return False
+            for st in steps:
+                if not (isinstance(st["f"], int) and 0 <= st["f"] < len(files) and st.get("via", "read") in VIAS):
+                    return False
+                lv = st.get("levels")
+                if lv is not None and not (isinstance(lv, list) and all(isinstance(x, int) and 0 <= x < 3 for x in lv)
+                                           and len(set(lv)) == len(lv)):
+                    return False
+            return True
+        return case.get("via", "read") in VIAS and valid_file(case)
+    except Exception:
+        return False
+
+
+def valid_file(case):
+    try:
         h = case["hdr"]
         for k in HDR_INTS:
             if not (isinstance(h[k], int) and -2 ** 31 <= h[k] < 2 ** 31):
@@ -425,23 +511,73 @@ def err_class(e):
         type(e).__name__, "struct" if type(e).__name__ == "error" else "other:" + type(e).__name__)
 
 
-def run_impl(data):
+VIAS = ["read", "read_file_str", "read_file_path"]
+
+
+def read_obj(data, via="read"):
+    """one call of a public read entry point: ("ok", mapset) or ("err", class, repr).
+    `read` = O2JMapSet.read(bytes); `read_file_*` = O2JMapSet.read_file on a temporary .ojn file (str / pathlib.Path)"""
+    import os
+    import tempfile
+    from pathlib import Path
     from reamber.o2jam.O2JMapSet import O2JMapSet
     _quiet()
+    path = None
     try:
         with warnings.catch_warnings():
             warnings.simplefilter("ignore")
-            ms = O2JMapSet.read(data)
-            hdr = {a: getattr(ms, a) for a in ATTRS}
-            lv = []
-            for m in ms.maps:
-                hd, ho, bp = m.hits.df, m.holds.df, m.bpms.df
-                hits = [(float(o), int(c), int(v), int(p)) for o, c, v, p in zip(hd["offset"], hd["column"], hd["volume"], hd["pan"])]
-                holds = [(float(o), int(c), float(ln), int(v), int(p))
-                         for o, c, ln, v, p in zip(ho["offset"], ho["column"], ho["length"], ho["volume"], ho["pan"])]
-                bpms = [(float(o), float(b)) for o, b in zip(bp["offset"], bp["bpm"])]
-                lv.append(dict(hits=hits, holds=holds, bpms=bpms))
+            if via == "read":
+                return ("ok", O2JMapSet.read(data))
+            fd, path = tempfile.mkstemp(suffix=".ojn", prefix="c07-", dir="/tmp")
+            with os.fdopen(fd, "wb") as f:
+                f.write(data)
+            return ("ok", O2JMapSet.read_file(Path(path) if via == "read_file_path" else path))
+    except Exception as e:
+        return ("err", err_class(e), repr(e)[:200])
+    finally:
+        if path is not None:
+            try:
+                os.remove(path)
+            except OSError:
+                pass
+
+
+def extract(ms, level_order=None):
+    """header attributes and the three object lists of every difficulty, read off a map set (levels visited in
+    `level_order`, returned in their own order)"""
+    with warnings.catch_warnings():
+        warnings.simplefilter("ignore")
+        hdr = {a: getattr(ms, a) for a in ATTRS}
+        n = len(ms.maps)
+        order = [k for k in (level_order or range(n)) if k < n] + [k for k in range(n) if k not in (level_order or range(n))]
+        lv = [None] * n
+        for k in order:
+            m = ms.maps[k]
+            hd, ho, bp = m.hits.df, m.holds.df, m.bpms.df
+            hits = [(float(o), int(c), int(v), int(p)) for o, c, v, p in zip(hd["offset"], hd["column"], hd["volume"], hd["pan"])]
+            holds = [(float(o), int(c), float(ln), int(v), int(p))
+                     for o, c, ln, v, p in zip(ho["offset"], ho["column"], ho["length"], ho["volume"], ho["pan"])]
+            bpms = [(float(o), float(b)) for o, b in zip(bp["offset"], bp["bpm"])]
+            lv[k] = dict(hits=hits, holds=holds, bpms=bpms)
+    return hdr, lv
+
+
+def run_impl(data, via="read"):
+    r = read_obj(data, via)
+    if r[0] == "err":
+        return r
+    try:
+        hdr, lv = extract(r[1])
         return ("ok", hdr, lv)
+    except Exception as e:
+        return ("err", err_class(e), repr(e)[:200])
+
+
+def meta_reuse(obj, data):
+    """`read_meta` on an O2JMapSetMeta instance that has already read other headers: ("ok", header) / ("err", …)"""
+    try:
+        obj.read_meta(data[:300])
+        return ("ok", {a: getattr(obj, a) for a in ATTRS})
     except Exception as e:
         return ("err", err_class(e), repr(e)[:200])
 
@@ -571,13 +707,14 @@ def run(case, drv):
         good = j["i32"] == struct.unpack("<i", b)[0] and j["i16"] == struct.unpack("<h", b[:2])[0]
         return dict(claim="int", ok=good, agree=good, dom=True, tags=["int"], nontrivial=True,
                     detail={} if good else dict(model=j, bytes=case["bytes"]))
+    if cl == "seq":
+        return run_seq(case, drv)
     return run_read(case, drv)
 
 
-def run_read(case, drv):
-    data = build(case)
-    impl = run_impl(data)
-    r = drv.call("c07.run", b=list(data))
+def judge(impl, r):
+    """verdict parts for one read: `impl` = what the implementation returned for a byte string, `r` = the driver's
+    model + specification for the same bytes.  Returns dict(ok, agree, dom, wf, tags, detail, maxdev)."""
     model, spec = r["model"], r["spec"]
     tags = []
     detail = {}
@@ -652,7 +789,11 @@ def run_read(case, drv):
         detail["impl"] = _short(impl)
         detail["model"] = _short(model)
         detail["spec"] = detail.get("spec") or _short(spec)
-    # ---- statistics
+    return dict(ok=ok, agree=agree, dom=dom, wf=wf, tags=tags, detail=detail, maxdev=maxdev)
+
+
+def file_stats(case):
+    """(nontrivial, tempo tag) of one file description"""
     nontrivial = False
     for l in case["levels"]:
         tempo = sorted(p["m"] for p in l if p["ch"] == 1 and any(e != 0 for e in p["ev"]))
@@ -671,9 +812,127 @@ def run_read(case, drv):
                         elif e[0] != 0 and e[2] == 3:
                             st = False
     ntempo = max([sum(1 for p in l if p["ch"] == 1 for e in p["ev"] if e != 0) for l in case["levels"]] + [0])
-    tags.append("tempo%d" % min(ntempo, 3))
-    return dict(claim="read", ok=ok, agree=agree, dom=dom, kf=kf, tags=tags, nontrivial=nontrivial and wf, maxdev=maxdev,
-                boundary=boundary, detail=detail)
+    return nontrivial, "tempo%d" % min(ntempo, 3)
+
+
+def fresh(case):
+    """evaluate a case in a NEW Python process (own driver): nothing read earlier by this worker can influence it, so a
+    failure found this way reproduces from its replay file"""
+    import json
+    import os
+    import subprocess
+    import sys
+    here = os.path.dirname(os.path.dirname(os.path.abspath(__file__)))
+    code = ("import sys, json, os\n"
+            "sys.path.insert(0, %r)\nsys.path.insert(0, os.environ['REAMBER_REPO'])\n"
+            "from lib.driver import Driver\nimport props.c07 as m\n"
+            "c = json.load(sys.stdin)\nr = m.run(c, Driver())\n"
+            "print('\\n@@C07@@' + json.dumps(r, default=str))\n") % here
+    env = dict(os.environ, C07_INPROC="1")
+    env.setdefault("REAMBER_REPO", "/repo")
+    p = subprocess.run([sys.executable, "-c", code], input=json.dumps(case), env=env, stdout=subprocess.PIPE,
+                       stderr=subprocess.PIPE, text=True, timeout=300)
+    for line in p.stdout.split("\n"):
+        if line.startswith("@@C07@@"):
+            return json.loads(line[len("@@C07@@"):])
+    raise RuntimeError("fresh-process evaluation failed: " + (p.stderr or p.stdout)[-800:])
+
+
+def _inproc():
+    import os
+    return os.environ.get("C07_INPROC") == "1"
+
+
+def run_read(case, drv):
+    res = run_read_inproc(case, drv)
+    if (res["ok"] and res["agree"]) or _inproc():
+        return res
+    fr = fresh(case)
+    if fr["ok"] and fr["agree"]:
+        # fails here, passes alone: state kept between calls. Still a failure; out of `dom` so that the shrinker
+        # does not follow candidates whose failure only comes from this process's history
+        res["tags"].append("history-dependent")
+        res["dom"] = False
+        res["detail"]["history"] = "the same case passes when read alone in a fresh process: the result depends on what this process read before"
+        return res
+    return fr
+
+
+def run_seq(case, drv):
+    """always judged in a fresh process: the sequence itself is the only history"""
+    if _inproc():
+        return run_seq_inproc(case, drv)
+    return fresh(case)
+
+
+def run_read_inproc(case, drv):
+    data = build(case)
+    via = case.get("via", "read")
+    impl = run_impl(data, via)
+    j = judge(impl, drv.call("c07.run", b=list(data)))
+    nt, ttag = file_stats(case)
+    return dict(claim="read", ok=j["ok"], agree=j["agree"], dom=j["dom"], kf=None, tags=j["tags"] + [ttag, "via:" + via],
+                nontrivial=nt and j["wf"], maxdev=j["maxdev"], boundary=False, detail=j["detail"])
+
+
+def run_seq_inproc(case, drv):
+    """several files read one after the other in ONE process (any entry point, any order, files repeated), every
+    result judged independently against the model/specification of its own bytes.  All reads are done first and the
+    results are taken off the returned objects afterwards, difficulties interleaved — so state kept between calls
+    (memo tables, a hold buffer that outlives a file, shared objects) shows.  One O2JMapSetMeta instance also reads
+    every header in turn."""
+    from reamber.o2jam.O2JMapSetMeta import O2JMapSetMeta
+    files = case["files"]
+    datas = [build(f) for f in files]
+    drvres = {}
+    steps = case["steps"]
+    objs = []
+    shared_meta = O2JMapSetMeta()
+    metas = []
+    for st in steps:
+        objs.append(read_obj(datas[st["f"]], st.get("via", "read")))
+        metas.append(meta_reuse(shared_meta, datas[st["f"]]))
+    # extraction after all reads, last read first, difficulties in the step's own order
+    impls = [None] * len(steps)
+    for k in reversed(range(len(steps))):
+        o = objs[k]
+        if o[0] == "err":
+            impls[k] = o
+            continue
+        try:
+            hdr, lv = extract(o[1], steps[k].get("levels"))
+            impls[k] = ("ok", hdr, lv)
+        except Exception as e:
+            impls[k] = ("err", err_class(e), repr(e)[:200])
+    ok, agree, dom, maxdev = True, True, True, 0.0
+    tags, detail = [], {}
+    for k, st in enumerate(steps):
+        i = st["f"]
+        if i not in drvres:
+            drvres[i] = drv.call("c07.run", b=list(datas[i]))
+        j = judge(impls[k], drvres[i])
+        # the shared O2JMapSetMeta instance: header of this file, whatever it read before
+        spec_h = drvres[i]["spec"]["header"]
+        mh = metas[k]
+        if mh[0] == "ok":
+            if "ok" not in spec_h or header_diff(mh[1], spec_h["ok"]):
+                j["ok"] = False
+                j["detail"]["reused_meta"] = header_diff(mh[1], spec_h["ok"]) if "ok" in spec_h else "header from < 300 bytes"
+        elif "ok" in spec_h:
+            j["ok"] = False
+            j["detail"]["reused_meta"] = "read_meta raised on 300 bytes: " + mh[2]
+        ok, agree, dom = ok and j["ok"], agree and j["agree"], dom and j["dom"]
+        maxdev = max(maxdev, j["maxdev"])
+        tags += [t for t in j["tags"] if t not in tags]
+        if not (j["ok"] and j["agree"]):
+            detail["step%d(file %d, %s)" % (k, i, st.get("via", "read"))] = j["detail"]
+    tags += ["seq%d" % min(len(steps), 5)] + sorted({"via:" + st.get("via", "read") for st in steps})
+    if len({st["f"] for st in steps}) < len(steps):
+        tags.append("file-repeated")
+    return dict(claim="seq", ok=ok, agree=agree, dom=dom, kf=None, tags=tags, nontrivial=len(steps) >= 2, maxdev=maxdev,
+                boundary=False, detail=detail)
+
+
 
 
 def _short(x, n=1800):
